@@ -28,3 +28,17 @@ def fmt3_choices(block, pin, pan):
     nib = unmask(block, pan)
     fill = nib[2 + len(pin):]
     return "".join("0123456789ABCDEF"[x] for x in fill) + "A" * (10 - len(fill)), fill
+
+def biased_entropy(ctx, kind):
+    """extreme values of the random fill, in a separate interpreter (harness/biased_entropy.py)"""
+    import json, os, subprocess, sys
+    from harness import framework as fw
+    r = subprocess.run([sys.executable, "-W", "ignore", os.path.join(fw.VERIF, "harness", "biased_entropy.py"), str(ctx.seed),
+                        str(ctx.n(6000, 60000))], capture_output=True, text=True, timeout=1200)
+    try:
+        res = json.loads(r.stdout.strip().split("\n")[-1])
+    except Exception:  # noqa: BLE001
+        return [{"what": "biased-entropy run did not complete: " + r.stderr[-300:], "input": {"history": "harness/biased_entropy.py"},
+                 "expected": "completes", "observed": "crash"}], 0
+    return [{"what": v["what"], "input": {"history": "python harness/biased_entropy.py %d N" % ctx.seed, "detail": v["what"]},
+             "expected": "holds for every value of the random fill", "observed": v["what"]} for v in res[kind]], res["calls"]
